@@ -357,6 +357,7 @@ inline J plan_c18(uint64_t verif_seed, uint64_t index, int tier) {
     cfg.max_vertices = (int)ro.range(4, 24);
     cfg.simple_polys_only = true;
     cfg.neg_explicit = false;  // keep C18 inputs inside every writer's comfort zone
+    cfg.compact = tier == 2;   // every prefix of the file goes through every reader: quadratic in its size
     cfg.dangling = false;
     model::MLib m = gen::library(rm, cfg);
     int source = oas ? 3 : (int)ro.below(3);  // 0 write_gds, 1 GdsWriter, 2 peer, 3 write_oas
@@ -430,6 +431,7 @@ inline J plan_c18(uint64_t verif_seed, uint64_t index, int tier) {
             rd.set("file", file);
             rd.set("repeat", pick_repeat(rsch));
             if (rsch.chance(0.15)) rd.set("no_error_code", true);  // the out-parameter is optional
+            if (!oas && i == 2 && rsch.chance(0.25)) rd.set("reuse_summary", true);
             if (i == 0 && !oas && rsch.chance(0.3)) {
                 static const double units[] = {1e-6, 1e-9, 1e-3};
                 rd.set("unit", units[rsch.below(3)]);
@@ -895,6 +897,21 @@ inline J plan_c17(uint64_t verif_seed, uint64_t index, int tier) {
         m = gdsify(m);
         c03_extras(rm, m);
     }
+    // files gdstk writes for tags above 32767 (the field is a signed 16-bit number: out of the format's range,
+    // but "any file produced by gdstk" all the same): nothing is said here about what such a tag loads as,
+    // only that every shortcut agrees with the full load
+    bool wild_tags = source != 2 && ro.chance(0.1);
+    if (wild_tags) {
+        static const uint32_t wild[] = {32768, 40000, 50000, 65535};
+        for (auto& c : m.cells) {
+            for (auto& p : c.polys)
+                if (ro.chance(0.3)) (ro.chance(0.5) ? p.layer : p.dtype) = wild[ro.below(4)];
+            for (auto& p : c.paths)
+                if (ro.chance(0.3)) (ro.chance(0.5) ? p.layer : p.dtype) = wild[ro.below(4)];
+            for (auto& l : c.labels)
+                if (ro.chance(0.3)) (ro.chance(0.5) ? l.layer : l.ttype) = wild[ro.below(4)];
+        }
+    }
     // a second small model supplies fresh cells for writer sessions (names must not clash with the first)
     gen::Cfg cfg2 = cfg;
     cfg2.max_cells = 3;
@@ -940,9 +957,11 @@ inline J plan_c17(uint64_t verif_seed, uint64_t index, int tier) {
     {
         J l = op("load_check");
         l.set("file", F);
-        J e = J::obj();
-        e.set("model", 0);
-        l.set("expect", e);
+        if (!wild_tags) {
+            J e = J::obj();
+            e.set("model", 0);
+            l.set("expect", e);
+        }
         l.set("keep", "FULL");
         ops.push(l);
     }
@@ -1123,6 +1142,7 @@ inline J plan_c17(uint64_t verif_seed, uint64_t index, int tier) {
                 } else if (a.phase == 1) {
                     J o = op("writer_close");
                     o.set("w", "W");
+                    if (wild_tags) o.set("lenient_container", true);
                     ops.push(o);
                     a.phase = 2;
                 }
